@@ -1514,3 +1514,12 @@ V("r9-c16-weights-product-transposed", "C16", "fire", UT, _C16_EW, "    return {
 for _i in [1, 2, 3, 4, 5, 6, 7, 8, 10, 11, 12, 13, 14, 15, 16, 17, 18, 19, 20]:
     VARIANTS.append(dict(id="private-module-c%02d" % _i, prop="C%02d" % _i, expect="silent", rule=None, edits=[("@private_module",)],
                          what="the small graph helpers of utils moved into a private module and imported back under their names"))
+
+# ---- x[a:len(x)] as the open-ended remainder; a fold loop left early
+_C17_STOP = "        for i, ratio in enumerate(ratios):\n            stop = n if i == n_folds - 1 else start + round(n * ratio)\n            folds[i].append(sample[start:stop])\n            start = stop\n"
+V("r9-c17-stop-bound", "C17", "silent", UT, _C17_LOOP, _C17_STOP, what="one slice sample[start:stop] with stop = n for the last fold (x[a:len(x)] is x[a:])")
+V("r9-c17-stop-bound-early-break", "C17", "fire", UT, _C17_LOOP, _C17_STOP.replace("            start = stop\n", "            if stop >= n:\n                break\n            start = stop\n"), rule="FLOW.break",
+  accept_inconclusive=True, what="the fold loop stops as soon as the sample is used up: later folds get no (empty) slice")
+V("r9-c17-break-after-second", "C17", "fire", UT, "            folds[i].append(fold_sample)\n", "            folds[i].append(fold_sample)\n            if i >= 1:\n                break\n", rule="FLOW.break",
+  what="fold loop left after the second fold")
+V("r9-c17-stop-bound-other-len", "C17", "fire", UT, _C17_LOOP, _C17_STOP.replace("stop = n if", "stop = len(data[0]) if"), rule=None, what="the last fold ends at the length of the first environment")
